@@ -31,6 +31,9 @@ func (d *devmodOwnerModule) HandleInfo(ctx context.Context, messageName string, 
 		if err := cbor.NewDecoder(messageBody).Decode(&numModules); err != nil {
 			return err
 		}
+		if numModules < 0 || numModules >= cbor.MaxArrayDecodeLength {
+			return fmt.Errorf("invalid devmod nummodules: %d", numModules)
+		}
 		d.Modules = make([]string, numModules)
 		return nil
 	case "modules":
@@ -71,6 +74,9 @@ func (d *devmodOwnerModule) parseModules(messageBody io.Reader) error {
 		// indicate the start index of the full module array to populate.
 		if idx := slices.Index(d.Modules, ""); idx != -1 && chunk.Start != idx {
 			chunk.Start = idx
+		}
+		if chunk.Len > len(d.Modules)-chunk.Start {
+			return fmt.Errorf("invalid devmod module chunk")
 		}
 
 		copy(d.Modules[chunk.Start:chunk.Start+chunk.Len], chunk.Modules)
